@@ -94,6 +94,28 @@ class VerifyMixin:
                 res['obligations'] += r['obligations']
         return res
 
+    def unreached_lines(self, finfo, executed):
+        import ast as _ast
+        dead = []
+
+        def walk(stmts):
+            for s in stmts:
+                if isinstance(s, (_ast.FunctionDef, _ast.AsyncFunctionDef, _ast.ClassDef)):
+                    if id(s) not in executed:
+                        dead.append(s.lineno)
+                    continue
+                if isinstance(s, _ast.Expr) and isinstance(s.value, _ast.Constant) and isinstance(s.value.value, str):
+                    continue
+                if id(s) not in executed:
+                    dead.append(s.lineno)
+                    continue
+                for fld in ('body', 'orelse', 'finalbody'):
+                    walk(getattr(s, fld, []) or [])
+                for h in getattr(s, 'handlers', []) or []:
+                    walk(h.body)
+        walk(finfo.node.body)
+        return dead
+
     def guarded_keys(self, st):
         """fields under a monitor of a shared object: every acquisition havocs them, callers never rely on them"""
         out = set()
@@ -313,25 +335,7 @@ class VerifyMixin:
         self.cur_inline_callees = ()
         # statements of the root that no feasible path reached: dead under the contract's preconditions / callee contracts.
         # Reported (evidence + DEAD-UNDER-CONTRACT lines), since an over-strong precondition makes clauses about them vacuous.
-        import ast as _ast
-        dead = []
-
-        def walk(stmts):
-            for i, s in enumerate(stmts):
-                if isinstance(s, (_ast.FunctionDef, _ast.AsyncFunctionDef, _ast.ClassDef)):
-                    if id(s) not in self.executed_nodes:
-                        dead.append(s.lineno)
-                    continue
-                if isinstance(s, _ast.Expr) and isinstance(s.value, _ast.Constant) and isinstance(s.value.value, str):
-                    continue
-                if id(s) not in self.executed_nodes:
-                    dead.append(s.lineno)
-                    continue
-                for fld in ('body', 'orelse', 'finalbody'):
-                    walk(getattr(s, fld, []) or [])
-                for h in getattr(s, 'handlers', []) or []:
-                    walk(h.body)
-        walk(finfo.node.body)
+        dead = self.unreached_lines(finfo, self.executed_nodes)
         if dead:
             self.dead_under_contract.setdefault(c.target, {})[suffix or '-'] = sorted(set(dead))
         elif suffix:
